@@ -52,7 +52,10 @@ def validated_python_name(name, value):
     assert name
     assert value is not None
 
-    toky = generated_tokens(value.strip())
+    try:
+        toky = iter(list(generated_tokens(value.strip())))
+    except (tokenize.TokenError, SyntaxError) as error:
+        raise NameError("%s must be a Python name but is: %r (%s)" % (name, value, error))
     next_token = next(toky)
     next_type = next_token[0]
     result = next_token[1]
